@@ -11,6 +11,7 @@ import (
 	"verif/internal/gen"
 	"verif/internal/mon"
 	"verif/internal/prng"
+	"verif/internal/refcodec"
 	"verif/internal/refmoney"
 )
 
@@ -39,7 +40,7 @@ func init() {
 			"distinct_nontrivial = distinct (transaction, quote, key) cases with at least one input and one output in which every comparison above was carried out (no call panicked).",
 		Assum: []string{
 			"reference size/fee arithmetic in /verif/internal/refmoney (math/big), validated at start-up against the public sizes of the standard P2PKH layouts",
-			"'supported' spent script means exactly the 25-byte P2PKH template; P2PKH-inscription spent scripts (which go-bt also estimates) are not generated",
+			"'supported' spent script means the 25-byte P2PKH template or a P2PKH-inscription (refcodec.IsP2PKHInscription, cross-checked against Tx.Inscribe by C14); both take the 107-byte placeholder",
 			"domain: fee quotes with bytes >= 1 and at most 10^6 sat/byte, amounts <= 21e14 sat; the ambiguous empty transaction is never generated; signatures are the library's own (RFC 6979, low S)",
 		},
 	}
@@ -172,7 +173,9 @@ func c11Output(r *prng.R, big *int) mOuts {
 	case k < 17:
 		g.Script = dataScript(r, r.Bool(), r.Intn(200))
 	case k < 20:
-		g.Script = prng.Pick(r, [][]byte{{0x00}, {0x00, 0x00, 0x6a}, {0x51, 0x6a}, {0x6b}, {0x6a}, {0x00, 0x6a}, {0x6a, 0x00}, {0x00, 0x6a, 0x00}, {0x00, 0x6b}})
+		g.Script = prng.Pick(r, [][]byte{{0x00}, {0x00, 0x00, 0x6a}, {0x51, 0x6a}, {0x6b}, {0x6a}, {0x00, 0x6a}, {0x6a, 0x00}, {0x00, 0x6a, 0x00}, {0x00, 0x6b},
+			// pushes whose DATA is 0x6a / 0x00 0x6a: not data scripts (the prefix test is on the script bytes, not on decoded parts)
+			{0x01, 0x6a}, {0x01, 0x6a, 0x51}, {0x4c, 0x01, 0x6a, 0x51}, {0x01, 0x00, 0x01, 0x6a}, {0x00, 0x01, 0x6a}, {0x02, 0x00, 0x6a, 0x51}, {0x02, 0x6a, 0x6a}, {0x00, 0x00, 0x00, 0x6a}, {0x51, 0x00, 0x6a}})
 	case k < 21:
 		g.Script = []byte{}
 	default:
@@ -192,6 +195,8 @@ func thirteenEmptyPushes() []byte {
 
 func c11SpentScript(r *prng.R) (script []byte, isNil bool) {
 	switch k := r.Intn(16); {
+	case k < 2: // a P2PKH-inscription output: supported, estimated like P2PKH
+		return c11Inscription(r.Bytes(20), r), false
 	case k < 8:
 		return gen.P2PKH(r.Bytes(20)), false
 	case k < 9:
@@ -243,6 +248,17 @@ func c11SpentScript(r *prng.R) (script []byte, isNil bool) {
 		return s, false
 	}
 	return r.Bytes(1 + r.Intn(60)), false
+}
+
+// c11Inscription draws a P2PKH-inscription script of the shapes Tx.Inscribe
+// builds (the reference recogniser's template; a bare trailing OP_RETURN, which
+// the library also accepts, is left out).
+func c11Inscription(pkh []byte, r *prng.R) []byte {
+	for {
+		if s := c04Inscription(pkh, r); refcodec.IsP2PKHInscription(s) {
+			return s
+		}
+	}
 }
 
 // c11SetAmounts makes inputs - outputs hit the relation against the fee on the given basis.
@@ -372,11 +388,13 @@ func c11MakeSign(r *prng.R, keyBytes []byte) *c11In {
 	partial := r.Chance(1, 3)
 	for i := 0; i < nIn; i++ {
 		gi := gen.In{TxID: r.Bytes(32), Vout: gen.U32(r), Seq: gen.U32(r), PrevScript: key.p2pkh(), Unlock: []byte{}}
-		switch r.Intn(8) { // P2PKH outputs that commit to the key's uncompressed form, or to another key altogether
+		switch r.Intn(8) { // P2PKH outputs that commit to the key's uncompressed form, or to another key altogether; P2PKH-inscription outputs of the key
 		case 0:
 			gi.PrevScript = key.p2pkhUncompressed()
 		case 1:
 			gi.PrevScript = gen.P2PKH(r.Bytes(20))
+		case 2, 3:
+			gi.PrevScript = c11Inscription(key.pkh, r)
 		}
 		if r.Chance(1, 5) {
 			gi.Unlock, gi.UnlockNil = nil, true
